@@ -28,6 +28,21 @@ def cases(seed, tier):
     from ssh_audit.builtin_policies import BUILTIN_POLICIES
     for name in sorted(BUILTIN_POLICIES):
         yield {'kind': 'builtin', 'policy_name': name, 'opts': ['-n'] if hash(name) % 2 else ['-j'], 'pseed': 7}
+    for i in range(NCASES[tier] // 5):
+        # client role (listen/accept): the two directions of a client's lists may legally differ
+        rng = gen.case_rng(seed, ID, 'client', i)
+        p = gen.rand_profile(rng, allow_odd=False, with_keys=False)
+        p['banner'] = rng.choice(['SSH-2.0-OpenSSH_9.6', 'SSH-2.0-PuTTY_Release_0.79', 'SSH-2.0-Go'])
+        for cat in CATS:
+            if not p[cat]:
+                p[cat] = [rng.choice([n for n in gen.db_names(cat) if not n.endswith('-*')])]
+        if rng.random() < 0.6:
+            p['enc_s2c'] = rng.sample(p['enc'], max(1, len(p['enc']) - 1)) if len(p['enc']) > 1 else p['enc'] + ['aes128-ctr']
+        if rng.random() < 0.6:
+            p['mac_s2c'] = list(reversed(p['mac'])) if len(set(p['mac'])) > 1 else p['mac'] + ['hmac-sha2-256']
+        if rng.random() < 0.3:
+            p['comp_s2c'] = ['none']
+        yield {'kind': 'client', 'profile': p, 'opts': rng.choice([['-n'], ['-j']]), 'pert': rng.choice(['enc', 'mac', 'kex', 'key']), 'pseed': rng.getrandbits(32)}
     for i in range(NCASES[tier]):
         rng = gen.case_rng(seed, ID, i)
         if rng.random() < 0.5:
@@ -160,6 +175,8 @@ def run_case(case, ctx):
             keys.append(h('builtin', case['policy_name']))
         return {'violations': out, 'keys': keys, 'counters': {'builtin': 1}}
     prof = case['profile']
+    if case['kind'] == 'client':
+        return run_client_case(case, ctx, d)
     files = {'p.txt': 'pre-existing\n'} if case.get('exists') else {'p.txt': None}
     plan = gen.server_plan(case['pseed'], ['--skip-rate-test', '-t', '2', '-M', '{DIR}/p.txt', 'srv.example:2222'], prof, port=2222, net=case['net'])
     plan.update({'dir': d, 'files': files, 'collect_files': ['p.txt']})
@@ -221,6 +238,55 @@ def run_case(case, ctx):
         else:
             keys.append(h('pert', kind, field))
     return {'violations': out, 'keys': keys, 'counters': {'custom': 1}}
+
+
+def run_client_case(case, ctx, d):
+    out, keys = [], []
+    prof = case['profile']
+
+    def run(argv, p, files=None, collect=None):
+        pl = gen.client_plan(case['pseed'], argv + ['-c', '-p', '2222', '-t', '4'], p, port=2222)
+        pl.update({'dir': d, 'files': files or {}, 'collect_files': collect or []})
+        return ctx.run(pl)
+    r1 = run(['-M', '{DIR}/p.txt'], prof, {'p.txt': None}, ['p.txt'])
+    if r1.get('harness_error'):
+        return {'violations': [], 'keys': []}
+    text = r1['files'].get('p.txt')
+    if r1['status'] != 0 or not text:
+        out.append(viol('C05 client role: -M did not write a policy (status %s)' % r1['status'], r1['stdout'][-500:] + r1['stderr'][-300:]))
+        return {'violations': out, 'keys': []}
+    r2 = run(list(case['opts']) + ['-P', '{DIR}/p.txt'], prof)
+    if r2.get('harness_error'):
+        return {'violations': [], 'keys': []}
+    v2 = c06.verdict(case, r2)
+    asym = any(k in prof for k in ('enc_s2c', 'mac_s2c', 'comp_s2c'))
+    if v2 is None:
+        out.append(viol('C05 client role: the written policy cannot be evaluated', r2['stdout'][-600:]))
+    elif not v2[0] or r2['status'] != 0:
+        out.append(viol('C05 client role: the policy made from a client fails on the same client (%s)%s' % (','.join(sorted(x.split(':')[0] for x in v2[1])), ' [directions differ]' if asym else ''),
+                        '%s\npolicy file:\n%s' % (r2['stdout'][-600:], text[-900:])))
+    else:
+        keys.append(h('client-same', asym, sorted((c, tuple(prof[c])) for c in CATS)))
+        # drift in what the report shows (the server-to-client direction for ciphers and MACs)
+        p2 = copy.deepcopy(prof)
+        cat = case['pert']
+        fld = {'enc': 'enc_s2c', 'mac': 'mac_s2c'}.get(cat, cat)
+        cur = list(p2.get(fld, p2[cat]))
+        pool = [n for n in gen.db_names(cat) if n not in cur and not n.endswith('-*')]
+        cur.append(pool[case['pseed'] % len(pool)])
+        p2[fld] = cur
+        if fld == cat and cat in ('enc', 'mac'):
+            p2[cat + '_s2c'] = cur
+        r3 = run(list(case['opts']) + ['-P', '{DIR}/p.txt'], p2)
+        if not r3.get('harness_error'):
+            v3 = c06.verdict(case, r3)
+            if v3 is None or v3[0] or r3['status'] != 3:
+                out.append(viol('C05 client role: drift not detected (%s)' % cat, r3['stdout'][-500:]))
+            elif not any(f.split(':')[0] == cat for f in v3[1]):
+                out.append(viol('C05 client role: drift detected but the field is not named (%s)' % cat, repr(sorted(v3[1]))))
+            else:
+                keys.append(h('client-pert', cat, asym))
+    return {'violations': out, 'keys': keys, 'counters': {'client': 1}}
 
 
 def shrink(case):
